@@ -9,8 +9,9 @@ model (KV.Update.Run.model_run) and on the Spec (spec_run); after every step the
 graphs), the catalog, the declared prefixes and the reported outcome are compared, up to a renaming of
 the blank nodes allocated by the update executor.
 
-Python AST (JSON): term = ["I",n] | ["P",n] | ["N",k,l];  tterm = ["V",v] | ["C",term] | ["B",l] | ["A"]
-tgraph = None | ["V",v] | ["C",term] | ["X"];  tquad = [s,p,o,g];  pt = ["V",v] | ["C",term]
+Python AST (JSON): term = ["I",n] | ["P",n] | ["N",k,l] | ["Q",term,term,term]
+tterm = ["V",v] | ["C",term] | ["B",l] | ["A"] | ["T",tterm,tterm,tterm]   (T: a quoted-triple template)
+tgraph = None | ["V",v] | ["C",term] | ["X"];  tquad = [s,p,o,g];  pt = ["V",v] | ["C",term] | ["Q",pt,pt,pt]
 block = [scope, [[pt,pt,pt]..]] with scope = None | ["C",term] | ["V",v];  where = [[block..]..] (UNION of joins)
 op = {"form": ID|DD|IW|DW|DIW|DWS, "del": [tquad..], "ins": [tquad..], "where": where}
 request = {"op": op|None, "entry": xu|su|hu|vol|ast, "decl": [n..], "kind": ok|alias|select|trail|second|unclosed|keyword}
@@ -56,6 +57,9 @@ assert not any(is_probable_absolute_iri(v) or v.startswith("_:") for v in SPECIA
 
 
 def lex(t):
+    """dictionary string of a term; a quoted triple is the nested list ["qt", s, p, o]"""
+    if t[0] == "Q":
+        return ["qt", lex(t[1]), lex(t[2]), lex(t[3])]
     if t[0] == "I":
         if t[1] in SPECIAL_IRI:
             return SPECIAL_IRI[t[1]]
@@ -69,7 +73,29 @@ def lex(t):
     return "_:kolibrie-update-@%d-u%d" % (t[1], t[2])
 
 
+def hx(v):
+    """hashable form of a decoded term (nested lists -> nested tuples)"""
+    return tuple(hx(x) for x in v) if isinstance(v, (list, tuple)) else v
+
+
+def atoms_of(x):
+    if isinstance(x, tuple):
+        out = set()
+        for y in x[1:]:
+            out |= atoms_of(y)
+        return out
+    return set() if x is None else {x}
+
+
+def subst(x, f):
+    if isinstance(x, tuple):
+        return (x[0],) + tuple(subst(y, f) for y in x[1:])
+    return x if x is None else f(x)
+
+
 def cterm(t):
+    if t[0] == "Q":
+        return "(Qt %s %s %s)" % (cterm(t[1]), cterm(t[2]), cterm(t[3]))
     if t[0] == "I":
         return "(Iri %d)" % t[1]
     if t[0] == "P":
@@ -92,6 +118,8 @@ def ctterm(t):
         return "(TConst %s)" % cterm(t[1])
     if t[0] == "B":
         return "(TBnode %d)" % t[1]
+    if t[0] == "T":
+        return "(TQuoted %s %s %s)" % (ctterm(t[1]), ctterm(t[2]), ctterm(t[3]))
     return "TKwA"
 
 
@@ -110,6 +138,8 @@ def ctquad(q):
 
 
 def cpt(p):
+    if p[0] == "Q":
+        return "(PQuoted %s %s %s)" % (cpt(p[1]), cpt(p[2]), cpt(p[3]))
     return "(PVar %d)" % p[1] if p[0] == "V" else "(PConst %s)" % cterm(p[1])
 
 
@@ -153,6 +183,8 @@ def short_where(quads):
                 return ["C", t[1]]
             if t[0] == "B":
                 return ["C", ["N", 0, t[1]]]
+            if t[0] == "T":
+                return ["Q", pt(t[1]), pt(t[2], True), pt(t[3])]
             return ["C", ["I", 0]] if pred else ["C", ["P", 0]]
         blocks.append([None if (g is None or g[0] == "X") else g, [[pt(s), pt(p, True), pt(o)]]])
     return [blocks]
@@ -166,6 +198,8 @@ class Renderer:
 
     def term(self, t, pos):
         r = self.rng
+        if t[0] == "Q":
+            return "<< %s %s %s >>" % (self.term(t[1], "s"), self.term(t[2], "p"), self.term(t[3], "o"))
         if t[0] == "I":
             if t[1] == 0:
                 return "<%s>" % RDF_TYPE
@@ -195,6 +229,8 @@ class Renderer:
             return self.term(t[1], pos)
         if t[0] == "B":
             return "_:u%d" % t[1]
+        if t[0] == "T":
+            return "<< %s %s %s >>" % (self.tterm(t[1], "s"), self.tterm(t[2], "p"), self.tterm(t[3], "o"))
         return "a"
 
     def tgraph(self, g):
@@ -227,6 +263,8 @@ class Renderer:
     def pt(self, p, pos):
         if p[0] == "V":
             return "?x%d" % p[1]
+        if p[0] == "Q":
+            return "<< %s %s %s >>" % (self.pt(p[1], "s"), self.pt(p[2], "p"), self.pt(p[3], "o"))
         if pos == "p" and p[1] == ["I", 0] and self.rng.random() < 0.5:
             return "a"
         return self.term(p[1], pos)
@@ -295,12 +333,22 @@ def render_text(req, rr):
 LEGACY = ("hu", "vol")
 
 
+def tt_has(t, tag):
+    return t[0] == tag or (t[0] == "T" and any(tt_has(x, tag) for x in t[1:]))
+
+
 def tq_has_var(q):
-    return q[0][0] == "V" or q[1][0] == "V" or q[2][0] == "V" or (q[3] is not None and q[3][0] == "V")
+    return tt_has(q[0], "V") or tt_has(q[1], "V") or tt_has(q[2], "V") or (q[3] is not None and q[3][0] == "V")
 
 
 def tq_has_bnode(q):
-    return q[0][0] == "B" or q[1][0] == "B" or q[2][0] == "B"
+    return tt_has(q[0], "B") or tt_has(q[1], "B") or tt_has(q[2], "B")
+
+
+def kwa_in(t, pred):
+    if t[0] == "A":
+        return pred
+    return t[0] == "T" and (kwa_in(t[1], False) or kwa_in(t[2], True) or kwa_in(t[3], False))
 
 
 def parser_accepts(op):
@@ -335,7 +383,8 @@ def known_kw_a(req):
     """The known class C03-template-keyword-a: a template (DATA block, DELETE/INSERT template, DELETE WHERE
     quad block) carries the keyword `a` in predicate position (mirrors KV.Update.Proofs.known_kw_a)."""
     op = req.get("op")
-    return bool(op) and req["kind"] in ("ok", "alias") and any(q[1][0] == "A" for q in op["del"] + op["ins"])
+    return bool(op) and req["kind"] in ("ok", "alias") and any(
+        kwa_in(q[0], False) or kwa_in(q[1], True) or kwa_in(q[2], False) for q in op["del"] + op["ins"])
 
 
 # ---------------------------------------------------------------------------------------------
@@ -346,6 +395,8 @@ BN_RE = re.compile(r"^_:kolibrie-update-@(-?\d+)-(.*)$")
 
 def mterm(v):
     """parsed Coq term -> lexical value"""
+    if v[0] == "Qt":
+        return ("qt", mterm(v[1]), mterm(v[2]), mterm(v[3]))
     if v[0] == "Iri":
         return lex(["I", v[1]])
     if v[0] == "Plain":
@@ -358,7 +409,8 @@ def mquads(rows):
 
 
 class Matcher:
-    """Keeps one injective renaming impl-name -> other-name of allocated blank nodes over a whole history."""
+    """Keeps one injective renaming impl-name -> other-name of allocated blank nodes over a whole history.
+    Terms are strings or nested tuples ("qt", s, p, o); blank nodes inside quoted triples are renamed as well."""
 
     def __init__(self, fixed, identity=()):
         self.fixed = set(fixed)
@@ -373,28 +425,33 @@ class Matcher:
         """renamable: a blank node that was not present initially (whatever the executor calls it)"""
         return t is not None and t not in self.fixed and t.startswith("_:")
 
+    def names(self, quads):
+        return {t for q in quads for x in q for t in atoms_of(x) if self.ren(t)}
+
     def match(self, A, B):
-        """A, B: lists of tuples of strings/None.  True iff some extension of the renaming maps A onto B."""
+        """A, B: lists of tuples of terms.  True iff some extension of the renaming maps A onto B."""
         A, B = [tuple(x) for x in A], [tuple(x) for x in B]
         if len(A) != len(B):
             return False
         Bset = set(B)
         if len(set(A)) != len(A) or len(Bset) != len(B):
-            return sorted(A, key=repr) == sorted(B, key=repr) and not any(self.ren(t) for q in A for t in q)
-        a_new = sorted({t for q in A for t in q if self.ren(t) and t not in self.map})
+            return sorted(A, key=repr) == sorted(B, key=repr) and not self.names(A)
+        a_new = sorted(t for t in self.names(A) if t not in self.map)
         used = set(self.map.values())
-        b_new = sorted({t for q in B for t in q if self.ren(t) and t not in used})
+        b_new = sorted(t for t in self.names(B) if t not in used)
         if len(a_new) != len(b_new):
             return False
+        qatoms = {q: set().union(*[atoms_of(x) for x in q]) for q in set(A) | Bset}
 
         def sig(name, quads):
             out = []
             for q in quads:
-                if name in q:
-                    out.append(tuple(("@" if x == name else ("*" if self.ren(x) else x)) for x in q))
+                if name in qatoms[q]:
+                    out.append(tuple(subst(x, lambda t: "@" if t == name else ("*" if self.ren(t) else t)) for x in q))
             return sorted(out, key=repr)
         sa = {n: sig(n, A) for n in a_new}
         sb = {n: sig(n, B) for n in b_new}
+
         def label(n):
             m = BN_RE.match(n)
             return m.group(2) if m else None
@@ -403,15 +460,16 @@ class Matcher:
         if any(not c for c in cand.values()):
             return False
         order = sorted(a_new, key=lambda n: len(cand[n]))
-        touching = {n: [q for q in A if n in q] for n in a_new}
+        touching = {n: [q for q in A if n in qatoms[q]] for n in a_new}
         trial = dict(self.map)
         taken = set(used)
         steps = [0]
+        image = lambda q: tuple(subst(x, lambda t: trial.get(t, t) if self.ren(t) else t) for x in q)
 
         def ok_quads(n):
             for q in touching[n]:
-                if all((not self.ren(x)) or x in trial for x in q):
-                    if tuple(trial.get(x, x) if self.ren(x) else x for x in q) not in Bset:
+                if all((not self.ren(t)) or t in trial for t in qatoms[q]):
+                    if image(q) not in Bset:
                         return False
             return True
 
@@ -421,7 +479,7 @@ class Matcher:
                 self.budget_hit = True
                 return True
             if i == len(order):
-                return all(tuple(trial.get(x, x) if self.ren(x) else x for x in q) in Bset for q in A)
+                return all(image(q) in Bset for q in A)
             n = order[i]
             for m in cand[n]:
                 if m in taken:
@@ -434,7 +492,7 @@ class Matcher:
                 taken.discard(m)
             return False
         if not a_new:
-            return all(tuple(self.map.get(x, x) if self.ren(x) else x for x in q) in Bset for q in A)
+            return all(image(q) in Bset for q in A)
         if go(0):
             if not self.budget_hit:
                 self.map = trial
@@ -479,6 +537,9 @@ GNAMES = [I(8), I(9), P(3)]
 OBJ = SUBJ + [P(1), P(2), P(3), I(8), P(142)]
 BORDER = [I(30), I(31), I(32), I(33), P(30), P(31), P(32), P(33), P(34), P(35)]
 VARS = [1, 2, 3, 4, 5]
+Q = lambda a, b, c: ["Q", a, b, c]
+QPOOL = [Q(I(1), I(5), I(2)), Q(I(2), I(6), P(1)), Q(P(1), I(5), I(2)), Q(I(1), P(2), I(3)),
+         Q(["N", 0, 1], I(5), Q(I(1), I(5), I(2)))]
 
 
 def gen_init(rng):
@@ -489,9 +550,9 @@ def gen_init(rng):
     for _ in range(rng.choice([0, 0, 1, 2, 4])):
         seeds.append(["N", rng.randint(1, 8), rng.choice([1, 2])])
     for _ in range(n):
-        s = rng.choice(SUBJ + SUBJ + bns + [P(1)] + seeds[:1])
+        s = rng.choice(SUBJ + SUBJ + bns + [P(1)] + seeds[:1]) if rng.random() < 0.92 else rng.choice(QPOOL)
         p = rng.choice(PRED + PRED + [I(0), P(2)])
-        o = rng.choice(OBJ + bns + seeds[:2]) if rng.random() < 0.8 else rng.choice(BORDER)
+        o = rng.choice(OBJ + bns + seeds[:2]) if rng.random() < 0.8 else rng.choice(BORDER + QPOOL)
         g = None if rng.random() < 0.55 else rng.choice(GNAMES)
         quads.append([s, p, o, g])
     graphs = [g for g in GNAMES + [I(10)] if rng.random() < 0.3]
@@ -500,7 +561,9 @@ def gen_init(rng):
 
 
 def gen_where(rng):
-    def pt(pos, vs):
+    def pt(pos, vs, nest=True):
+        if nest and pos in ("s", "o") and rng.random() < 0.04:
+            return ["Q", pt("s", vs, False), pt("p", vs, False), pt("o", vs, False)]
         if rng.random() < 0.62:
             return ["V", rng.choice(vs)]
         pool = {"s": SUBJ + [P(1)], "p": PRED + [I(0)], "o": OBJ}[pos]
@@ -525,6 +588,14 @@ def gen_where(rng):
     return [join()]
 
 
+def pt_vars(p):
+    if p[0] == "V":
+        return [p[1]]
+    if p[0] == "Q":
+        return pt_vars(p[1]) + pt_vars(p[2]) + pt_vars(p[3])
+    return []
+
+
 def where_vars(w):
     vs = []
     for j in w:
@@ -532,12 +603,16 @@ def where_vars(w):
             if scope is not None and scope[0] == "V":
                 vs.append(scope[1])
             for tp in tps:
-                vs += [p[1] for p in tp if p[0] == "V"]
+                for p in tp:
+                    vs += pt_vars(p)
     return sorted(set(vs))
 
 
 def gen_template(rng, vs, insert, kw_a=False, allow_var=True):
-    def tt(pos):
+    def tt(pos, nest=True):
+        if nest and pos in ("s", "o") and rng.random() < 0.08:
+            inner_p = ["A"] if (kw_a and rng.random() < 0.4) else tt("p", False)
+            return ["T", tt("s", False), inner_p, tt("o", False)]
         k = rng.random()
         if allow_var and vs and k < 0.55:
             return ["V", rng.choice(vs)]
@@ -576,7 +651,9 @@ def gen_op(rng, kw_a=False):
     vs = where_vars(w)
     if k < 0.50:
         # self-referential shapes: templates are the WHERE patterns themselves, with positions permuted for INSERT
-        pats = [(sc, tp) for j in w[:1] for sc, tps in j for tp in tps]
+        def as_tt(p):
+            return ["T", as_tt(p[1]), as_tt(p[2]), as_tt(p[3])] if p[0] == "Q" else list(p)
+        pats = [(sc, [as_tt(x) for x in tp]) for j in w[:1] for sc, tps in j for tp in tps]
         if pats:
             dl = [[list(tp[0]), list(tp[1]), list(tp[2]), sc] for sc, tp in pats]
             perm = rng.choice([(2, 1, 0), (0, 1, 2), (0, 1, 0), (2, 1, 2)])
@@ -686,7 +763,7 @@ def evaluate(ctx, binpath, cases, stream, report=True):
     verdicts = []
     failures = []
     st = {"cases": len(cases), "steps": 0, "accepted": 0, "rejected": 0, "changed": 0, "known_class_steps_skipped": 0,
-          "impl_model_mismatches": 0, "spec_violations": 0, "bnode_steps": 0, "iso_budget_hit": 0}
+          "impl_model_mismatches": 0, "spec_violations": 0, "bnode_steps": 0, "quoted_triple_steps": 0, "iso_budget_hit": 0}
     forms, kinds, entries = {}, {}, {}
     for c, (drv, args, creqs), im, mo in zip(cases, preps, impl, model):
         if report:
@@ -704,10 +781,15 @@ def evaluate(ctx, binpath, cases, stream, report=True):
             st["spec_violations"] += 1
             verdicts.append(v)
             continue
-        in_data = {x for q in drv["init"] for x in q if x} | set(drv["graphs"])
+        in_data = set()
+        for x in [y for q in drv["init"] for y in q] + list(drv["graphs"]):
+            in_data |= atoms_of(hx(x))
+        seed_atoms = set()
+        for x in drv["dict"]:
+            seed_atoms |= atoms_of(hx(x))
         # model: allocated names avoid every dictionary entry (exact names for everything known initially);
         # Spec: allocated names avoid the terms of the dataset (identity on the initial dataset, forgotten once deleted)
-        mm, ms = Matcher(in_data | set(drv["dict"])), Matcher((), in_data)
+        mm, ms = Matcher(in_data | seed_atoms), Matcher((), in_data)
         steps = im["steps"]
         verdict = None
         in_known = False
@@ -719,10 +801,10 @@ def evaluate(ctx, binpath, cases, stream, report=True):
             st["steps"] += 1
             cur = steps[k + 1]
             mrow, srow = mo[0][k], mo[1][k]
-            mcode, mins, mdel, mq, mcat, mpfx = mrow[0], mrow[1], mrow[2], mquads(mrow[3]), sorted(mterm(t) for t in mrow[4]), mrow[5]
-            sacc, sins, sdel, sq, scat = srow[0], srow[1], srow[2], mquads(srow[3]), sorted(mterm(t) for t in srow[4])
-            iq = [tuple(q) for q in cur["q"]]
-            ig = list(cur["g"])
+            mcode, mins, mdel, mq, mcat, mpfx = mrow[0], mrow[1], mrow[2], mquads(mrow[3]), sorted((mterm(t) for t in mrow[4]), key=repr), mrow[5]
+            sacc, sins, sdel, sq, scat = srow[0], srow[1], srow[2], mquads(srow[3]), sorted((mterm(t) for t in srow[4]), key=repr)
+            iq = [hx(q) for q in cur["q"]]
+            ig = [hx(g) for g in cur["g"]]
             io = impl_outcome(cur["r"])
             f = req["op"]["form"] if req.get("op") else "-"
             forms[f] = forms.get(f, 0) + 1
@@ -733,7 +815,8 @@ def evaluate(ctx, binpath, cases, stream, report=True):
                 break
             if known_kw_a(req) and (mcode == 0):
                 in_known = True
-            changed = (iq != [tuple(q) for q in prev["q"]] or ig != prev["g"])
+            pq, pg = [hx(q) for q in prev["q"]], [hx(g) for g in prev["g"]]
+            changed = (iq != pq or ig != pg)
             if io[0] in ("ok",) or (io[0] == "hu" and io[1]):
                 st["accepted"] += 1
             elif io[0] != "rows":
@@ -742,15 +825,17 @@ def evaluate(ctx, binpath, cases, stream, report=True):
                 st["changed"] += 1
                 if io[0] == "ok" and io[1] + io[2] > 0:
                     nontrivial = True
-            if any((x or "").startswith("_:") for q in iq for x in q):
+            if any(t.startswith("_:") for q in iq for x in q for t in atoms_of(x)):
                 st["bnode_steps"] += 1
+            if any(isinstance(x, tuple) for q in iq for x in q):
+                st["quoted_triple_steps"] += 1
             # --- the Spec is the oracle (until a step of the known class has been executed)
             if not in_known:
                 exp = expected_outcome(req["entry"], req["kind"], sacc, sins, sdel)
                 bad = None
                 if io != exp:
                     bad = "outcome"
-                elif not sacc and req["entry"] != "vol" and (iq != [tuple(q) for q in prev["q"]] or ig != prev["g"]):
+                elif not sacc and req["entry"] != "vol" and changed:
                     bad = "a rejected request changed the dataset"
                 elif not ms.match(iq, sq):
                     bad = "dataset"
@@ -762,7 +847,7 @@ def evaluate(ctx, binpath, cases, stream, report=True):
                                "impl_quads": cur["q"], "spec_quads": sq, "impl_graphs": ig, "spec_graphs": scat,
                                "before_quads": prev["q"], "before_graphs": prev["g"]}
                     break
-                ms.prune({x for q in iq for x in q if x} | set(ig))
+                ms.prune({t for q in iq for x in q for t in atoms_of(x)} | {t for g in ig for t in atoms_of(g)})
             else:
                 st["known_class_steps_skipped"] += 1
             # --- correspondence with the model
@@ -881,6 +966,8 @@ def catalogue():
         mk("DIW", [[V(1), C(I(5)), V(3), None]], [[V(1), C(I(6)), B(1), None]], w_p5),
         mk("DWS", [[V(1), C(I(5)), V(3), None]], []),
         mk("DWS", [[V(1), V(2), V(3), V(4)], [V(1), C(I(5)), V(5), None]], []),
+        mk("IW", [], [[["T", V(1), C(I(5)), V(3)], C(I(7)), B(1), None], [V(3), C(I(7)), ["T", V(3), C(I(6)), B(1)], None]], w_p5),  # quoted templates
+        mk("DWS", [[["T", V(1), V(2), V(3)], C(I(7)), V(4), None]], []),
         mk("ID", [], [[V(1), C(I(5)), C(I(3)), None]]),                                            # rejected: variable in DATA
         mk("DW", [[B(1), C(I(5)), V(3), None]], [], w_p5),                                         # rejected: blank node in DELETE
     ]
@@ -899,7 +986,8 @@ def legality_battery():
     the dataset makes some plain values legal (already a subject / a predicate / an existing graph)."""
     V = lambda n: ["V", n]
     C = lambda t: ["C", t]
-    values = BORDER + [I(1), I(8), P(1), P(2), P(3), P(4), P(142), ["N", 0, 1], ["N", 3, 1]]
+    values = BORDER + [I(1), I(8), P(1), P(2), P(3), P(4), P(142), ["N", 0, 1], ["N", 3, 1]] + QPOOL + [
+        Q(P(30), I(5), I(2)), Q(I(30), I(31), P(31)), Q(I(1), I(5), Q(P(4), I(5), I(2)))]
     cases = []
     for ctxno, extra in enumerate([[], [[P(1), I(5), I(2), None], [I(2), P(2), I(2), None], [I(2), I(5), I(2), P(3)],
                                         [P(30), I(5), I(2), None], [I(2), P(32), I(2), I(9)], [I(2), I(5), I(2), P(31)]]]):
